@@ -599,7 +599,7 @@ impl World {
         }));
         match r {
             Ok(Ok(r)) => Ok(r),
-            Ok(Err(e)) => Err(format!("{:#}", e)),
+            Ok(Err(e)) => Err(format!("{}", e.root_cause())),
             Err(p) => Err(format!("PANIC: {}", panic_msg(p))),
         }
     }
@@ -611,7 +611,7 @@ impl World {
         }));
         match r {
             Ok(Ok(r)) => Ok(r),
-            Ok(Err(e)) => Err(format!("{:#}", e)),
+            Ok(Err(e)) => Err(format!("{}", e.root_cause())),
             Err(p) => Err(format!("PANIC: {}", panic_msg(p))),
         }
     }
